@@ -280,6 +280,65 @@ fn main() {
           let _ = tokio::time::timeout(Duration::from_secs(5), ctx.term()).await;
           total == 0
         }
+        "HB" => {
+          // encrypted link, reader stalls with heartbeats on: does a PONG jump ahead of sealed data?
+          let mech = ["noise", "curve", "null"][it % 3];
+          let k1 = [7u8; 32];
+          let k2 = [9u8; 32];
+          let pull = ctx.socket(SocketType::Pull).unwrap();
+          let push = ctx.socket(SocketType::Push).unwrap();
+          if mech == "noise" {
+            let srv = rzmq::verif::noise_keypair_from(k1);
+            let cli = rzmq::verif::noise_keypair_from(k2);
+            pull.set_option(opt::NOISE_XX_ENABLED, true).await.unwrap();
+            pull.set_option_raw(opt::NOISE_XX_STATIC_SECRET_KEY, &srv.0).await.unwrap();
+            push.set_option(opt::NOISE_XX_ENABLED, true).await.unwrap();
+            push.set_option_raw(opt::NOISE_XX_STATIC_SECRET_KEY, &cli.0).await.unwrap();
+            push.set_option_raw(opt::NOISE_XX_REMOTE_STATIC_PUBLIC_KEY, &srv.1).await.unwrap();
+          } else if mech == "curve" {
+            let srv = rzmq::verif::curve_keypair_from(k1);
+            let cli = rzmq::verif::curve_keypair_from(k2);
+            pull.set_option(opt::CURVE_SERVER, true).await.unwrap();
+            pull.set_option_raw(opt::CURVE_SECRET_KEY, &srv.0).await.unwrap();
+            push.set_option_raw(opt::CURVE_SECRET_KEY, &cli.0).await.unwrap();
+            push.set_option_raw(opt::CURVE_SERVER_KEY, &srv.1).await.unwrap();
+          }
+          for s in [&pull, &push] {
+            util::set_i32(s, opt::SNDHWM, 10).await;
+            util::set_i32(s, opt::RCVHWM, 10).await;
+            util::set_i32(s, opt::SNDBUF, 32 * 1024).await;
+            util::set_i32(s, opt::RCVBUF, 32 * 1024).await;
+          }
+          // the READER pings (it sees no activity while it does not read)
+          util::set_i32(&pull, opt::HEARTBEAT_IVL, 100).await;
+          util::set_i32(&pull, opt::HEARTBEAT_TIMEOUT, 10_000).await;
+          util::set_i32(&pull, opt::RCVTIMEO, 2000).await;
+          util::set_i32(&push, opt::SNDTIMEO, 0).await;
+          let ep = util::bind_fresh(&pull, util::Transport::Tcp).await.unwrap();
+          let _ = push.connect(&ep).await;
+          tokio::time::sleep(Duration::from_millis(500)).await;
+          let mut acc = 0;
+          let t0 = Instant::now();
+          // produce for 2 s against a reader that does not read
+          let mut k = 0u32;
+          while t0.elapsed() < Duration::from_secs(2) {
+            let mut b = k.to_be_bytes().to_vec();
+            b.resize(20_000, 0x55);
+            if push.send(util::msg(b, false)).await.is_ok() {
+              acc += 1;
+              k += 1;
+            } else {
+              tokio::time::sleep(Duration::from_millis(5)).await;
+            }
+          }
+          let mut got = 0;
+          while pull.recv().await.is_ok() {
+            got += 1;
+          }
+          println!("{}: accepted {} received {}", mech, acc, got);
+          let _ = tokio::time::timeout(Duration::from_secs(5), ctx.term()).await;
+          got == acc
+        }
         "Q" => {
           // does ReadyPipeQueue::close() release a blocked pop() while a sender clone is still alive?
           let q = std::sync::Arc::new(rzmq::verif::Rpq::<u32>::new(4));
